@@ -47,18 +47,6 @@ FINDINGS = {
                                 "formula": "(lambda: [x for x in [[]] if not x.append(x)][0])()"}], ops=["hostile_formula"]),
     {"k": "restart", "mode": "reported"}]},
   # C05 ------------------------------------------------------------------------------------------
-  "F-t.c05": {"profile": "c05", "cfg": {"check_every": 1}, "events": [
-    OPEN, B(["AddTable", "T1", [col("c1", "Text"), col("c3", "Int")]],
-            ["BulkAddRecord", "T1", [None] * 4, {"c1": ["A", "e", "A", "c"], "c3": [0, 0, 0, 0]}]),
-    B(["AddColumn", "T1", "f4", {"type": "Any", "isFormula": True,
-                                 "formula": "[r.id for r in T1.lookupRecords(c3=$c3, order_by=\"-c1\")]"}]),
-    B(["ModifyColumn", "T1", "f4", {"isFormula": False}]),
-    B(["AddRecord", "T1", None, {"c1": "e", "c3": 2}]),
-    B(["AddColumn", "T1", "f7", {"type": "Any", "isFormula": True,
-                                 "formula": "[r.id for r in T1.lookupRecords(c3=$c3, order_by=\"c1\")]"}]),
-    B(["RemoveColumn", "T1", "f7"]),
-    B(["ModifyColumn", "T1", "f4", {"isFormula": True}]),
-    B(["AddRecord", "T1", None, {"c1": "A", "c3": 0}])]},
   "F-r.c05": {"profile": "c05", "cfg": {"check_every": 1}, "events": [
     OPEN, B(["AddTable", "T1", [col("c2", "Int")]], ["AddRecord", "T1", None, {"c2": 1}]),
     B(["AddColumn", "T1", "f8", {"type": "Any", "isFormula": True, "formula": "$c2.nosuch"}]),
@@ -93,6 +81,11 @@ FINDINGS = {
     B(["RenameTable", "T2", "SUM"], ops=["rename_any"]),
     # the shadowing shows when the summary formula is next recomputed
     B(["RenameTable", "T1", "T9"], ops=["rename_any"])]},
+  "F-n.c16": {"profile": "c16", "cfg": {}, "events": [
+    OPEN, B(["AddTable", "T1", [col("c1", "Int")]], ["BulkAddRecord", "T1", [None] * 2, {"c1": [1, 2]}]),
+    # (in the renamed table itself: elsewhere the cell keeps its stale NameError, finding F-b of C05)
+    B(["AddColumn", "T1", "f", {"type": "Any", "isFormula": True, "formula": "len(Zed.lookupRecords(c1=1))"}]),
+    B(["RenameTable", "T1", "Zed"], ops=["rename_any"])]},
 }
 
 ok = True
